@@ -54,9 +54,11 @@ type FrameBounds struct {
 	LongNames        bool // column names of 35..250 characters (wider than any fixed-size scratch space)
 }
 
-var intPool = []int{0, 1, -1, 2, 3, 7, 42, -42, 1 << 31, -(1 << 31), math.MaxInt64, math.MinInt64, 255, 256}
+var intPool = []int{0, 1, -1, 2, 3, 7, 42, -42, 1 << 31, -(1 << 31), math.MaxInt64, math.MinInt64, 255, 256,
+	// neighbours beyond 2^53 (distinct ints, one float64) and next to the limits
+	1 << 53, 1<<53 + 1, 1<<53 + 2, -(1 << 53) - 1, math.MaxInt64 - 1, math.MinInt64 + 1, 1 << 62, 1<<62 + 1}
 var floatPool = []float64{0, math.Copysign(0, -1), 1, -1, 1.5, 0.1, 1e21, 1e-7, 123456789.125, math.MaxFloat64, math.SmallestNonzeroFloat64, 9007199254740993, 1e19, 9.3e18, -2.5e-300}
-var strPool = []string{"", "a", "b", "abc", "A", " ", " a ", "a,b", "\"", "\"\"", "a\"b", "\n", "a\nb", "é", "漢字", "\xff", "\xc3", "0", "1", "true", "null", "NaN", "'", "\\", "\t", "\x00", " ", "x\x01y", "ab", "a\x00", "$", "%", "é́", "\ufffd", "a\ufffdb", "\u2028", "\u2029", "\x7f", "\xed\xa0\x80", "\xf0\x9f\x98\x80", "\xc0\x80", "\ufeff", "\ufeffa", "\x0b", "\x08", "\x0c", "\x1f", "a\x0bb", "\x1b[0m", "\x85", "\u0085"}
+var strPool = []string{"", "a", "b", "abc", "A", " ", " a ", "a,b", "\"", "\"\"", "a\"b", "\n", "a\nb", "é", "漢字", "\xff", "\xc3", "0", "1", "true", "null", "NaN", "'", "\\", "\t", "\x00", " ", "x\x01y", "ab", "a\x00", "$", "%", "é́", "\ufffd", "a\ufffdb", "\u2028", "\u2029", "\x7f", "\xed\xa0\x80", "\xf0\x9f\x98\x80", "\xc0\x80", "\ufeff", "\ufeffa", "\x0b", "\x08", "\x0c", "\x1f", "a\x0bb", "\x1b[0m", "\x85", "\u0085", "sep=;", "sep=|", "sep=,"}
 
 var pow10u = func() []uint64 {
 	p := []uint64{1}
